@@ -6,7 +6,7 @@ from cgsim import gen as G, ref
 from cgsim.core import fp, Skip, state_digest
 
 ID = "C10"
-QUICK = dict(worlds=16, runs=500, seconds=25)
+QUICK = dict(worlds=16, runs=500, seconds=15)
 THOROUGH = dict(worlds=256, runs=2500, seconds=30)
 RULE = ("seeded blackbox-free lint-clean circuits (<= 5 inputs, <= 10 gates) x all 3^n ternary patterns x three "
         "choices of the arbitrary binary values under X; distinct = canonical net; non-trivial = some gate is X for "
